@@ -146,6 +146,11 @@ def main(pid, tier, seed, replay):
         hist[kind] = hist.get(kind, 0) + 1
         rep = {"program": p.render_dl(), "injected": kind, "souffle_status": rc, "stderr": se[-600:], "model": m[0]}
         if kind == "well-formed":
+            if rc == -9:
+                # the run hit the time limit (a generated program that evaluates for too long): says nothing about the
+                # accept / reject verdict, which is what this property is about -- counted, not reported
+                hist["well-formed, run not finished"] = hist.get("well-formed, run not finished", 0) + 1
+                continue
             if rc != 0:
                 chk.finding(None, "a well-formed, grounded, stratifiable program was rejected (status %s)" % rc, rep)
             if m[0] == "stuck":
